@@ -418,6 +418,7 @@ struct Snap {
     std::vector<std::string> cnames, rnames;
     std::vector<std::vector<Obj>> res;       // per cell (store), per reference
     std::vector<std::vector<int>> rtype;     // reference types
+    std::vector<std::vector<std::string>> rtext;  // reference as text (kind + target)
     std::vector<std::vector<Tag>> pt, lt;
 };
 static Snap snap(World& w) {
@@ -428,12 +429,15 @@ static Snap snap(World& w) {
         s.cnames.push_back(c->name);
         std::vector<Obj> r;
         std::vector<int> ty;
+        std::vector<std::string> tx;
         for (uint64_t j = 0; j < c->reference_array.count; j++) {
             r.push_back(resolve(w, c->reference_array[j]));
             ty.push_back((int)c->reference_array[j]->type);
+            tx.push_back(ref_str(w, c->reference_array[j]));
         }
         s.res.push_back(r);
         s.rtype.push_back(ty);
+        s.rtext.push_back(tx);
         s.pt.push_back(shape_tags_of(c));
         s.lt.push_back(label_tags_of(c));
     }
@@ -599,6 +603,158 @@ static std::string oracle(World& w, const Snap& b, const std::string& op, const 
         if (d.tg != want) return "tag-query expected " + want;
     }
     return "";
+}
+
+// ---------------------------------------------------------------------------------------------
+// Known deviations of gdstk from the property as written (refuted clauses R1-R8 of
+// coq/GraphProofs.v), detected from the real objects only.  They lie outside the contract under
+// which the theorems hold (except R1) and are reported under one stable key each; the contract
+// oracle above keeps its own c16-* keys.  Lower rank = reported in preference (one P line per case).
+
+struct Deviation {
+    int rank;
+    std::string key, text;
+};
+
+static bool store_has_cycle(World& w) {
+    std::set<const Cell*> st, dn;
+    for (Cell* c : w.cells)
+        if (cyc_dfs(c, st, dn)) return true;
+    return false;
+}
+
+static void note(std::vector<Deviation>& v, int rank, const char* key, const std::string& text) {
+    v.push_back({rank, key, text});
+}
+
+// `cyc_before`: was there a cycle of Cell references in the store before the operation
+static std::vector<Deviation> deviations(World& w, const Snap& b, bool cyc_before, const std::string& op) {
+    std::vector<Deviation> v;
+    std::vector<std::string> t = words(op);
+    const std::string& k = t[0];
+    Snap a = snap(w);
+    const std::vector<int>&ca = a.ca, &ra = a.ra;
+    bool is_replace = k == "cc" || k == "rc" || k == "cr" || k == "rr";
+    size_t n0 = b.cnames.size();
+
+    if (is_replace) {
+        Obj oldo = {(k == "cc" || k == "cr") ? 1 : 2, (int)unhexn(t[1])};
+        int nw = (int)unhexn(t[2]);
+        // R5: the replacement closes a reference cycle
+        if ((k == "cc" || k == "rc") && !cyc_before && store_has_cycle(w))
+            note(v, 0, "replace_cell:self-cycle",
+                 "after `" + op + "` cell " + hx(nw) + " lies on a cycle of Cell references (recursive queries never return)");
+        // R3: a pointer reference to another object that merely has the old object's name is redirected
+        for (size_t i = 0; i < n0 && v.size() < 4; i++)
+            for (size_t j = 0; j < a.res[i].size(); j++)
+                if (b.rtype[i][j] != (int)ReferenceType::Name && b.res[i][j] != oldo && a.rtext[i][j] != b.rtext[i][j]) {
+                    note(v, 1, "replace_cell:rawcell-ref-by-name-match",
+                         "after `" + op + "` reference " + hx(j) + " of cell " + hx(i) + " went from " + b.rtext[i][j] + " to " +
+                             a.rtext[i][j] + " although it did not point to the replaced object (matched by name only)");
+                    i = n0;
+                    break;
+                }
+        // R4: dependencies of raw cells are never updated
+        if (oldo.kind == 2 && has(b.ra, oldo.id) && !has(ra, oldo.id))
+            for (int q : ra) {
+                bool stale = false;
+                for (uint64_t j = 0; j < w.raws[q]->dependencies.count; j++)
+                    if (w.rid[w.raws[q]->dependencies[j]] == oldo.id) stale = true;
+                if (stale) {
+                    note(v, 2, "replace_cell:rawcell-dependencies-stale",
+                         "after `" + op + "` member raw cell " + hx(q) + " still depends on the removed raw cell " + hx(oldo.id));
+                    break;
+                }
+            }
+    }
+    // R6: deep copy keeps the pointers of the source library
+    if (k == "cl" && t[1] == "1") {
+        for (int i : ca) {
+            bool hit = false;
+            for (size_t j = 0; j < a.res[i].size(); j++)
+                if (a.rtype[i][j] == (int)ReferenceType::Cell && has(b.ca, a.res[i][j].id) && !has(ca, a.res[i][j].id)) {
+                    note(v, 4, "Library::copy_from:deep-copy-shares-targets",
+                         "after `" + op + "` reference " + hx(j) + " of copied cell " + hx(i) + " designates cell " + hx(a.res[i][j].id) +
+                             " of the source library, not its copy");
+                    hit = true;
+                    break;
+                }
+            if (hit) break;
+        }
+    }
+    // R7 / R8: misuse of rename_cell accepted silently
+    if (k == "rnp" || k == "rnn") {
+        int c = -1;
+        if (k == "rnp")
+            c = (int)unhexn(t[1]);
+        else
+            for (int i : b.ca)
+                if (b.cnames[i] == nm(unhexn(t[1]))) {
+                    c = i;
+                    break;
+                }
+        std::string nn = nm(unhexn(t[2]));
+        if (c >= 0 && !has(b.ca, c)) {
+            bool changed = false;
+            for (int i : ca)
+                if ((size_t)i < n0 && a.rtext[i] != b.rtext[i]) changed = true;
+            if (changed)
+                note(v, 5, "rename_cell:nonmember",
+                     "`" + op + "` renames a cell outside the library and rewrote by-name references of members");
+        }
+        if (c >= 0 && b.cnames[c] != nn) {
+            bool clash = false;
+            for (int i : b.ca)
+                if (i != c && b.cnames[i] == nn) clash = true;
+            for (int i : b.ra)
+                if (b.rnames[i] == nn) clash = true;
+            if (clash) note(v, 6, "rename_cell:collision", "`" + op + "` gives a cell the name of another member without complaint");
+        }
+    }
+    // R2 / R1: top_level against what the references say
+    {
+        Array<Cell*> tc = {};
+        Array<RawCell*> tr = {};
+        w.lib->top_level(tc, tr);
+        std::vector<std::string> x, y;
+        std::set<int> topc, topr;
+        for (uint64_t i = 0; i < tc.count; i++) {
+            x.push_back(hx(w.cid[tc[i]]));
+            topc.insert(w.cid[tc[i]]);
+        }
+        for (uint64_t i = 0; i < tr.count; i++) {
+            y.push_back(hx(w.rid[tr[i]]));
+            topr.insert(w.rid[tr[i]]);
+        }
+        tc.clear();
+        tr.clear();
+        std::string got = "T[" + join(x) + "]U[" + join(y) + "]", want = naive_top(w);
+        if (got != want)
+            note(v, 3, "top_level:name-keyed-after-remove",
+                 "after `" + op + "` top_level gives " + got + " but the members no member points to are " + want);
+        for (int i : ca) {
+            bool hit = false;
+            for (size_t j = 0; j < a.res[i].size(); j++) {
+                Obj o = a.res[i][j];
+                if (a.rtype[i][j] != (int)ReferenceType::Name || o.kind == 0) continue;
+                if (o.kind == 1 && o.id == i) continue;
+                if ((o.kind == 1 && topc.count(o.id)) || (o.kind == 2 && topr.count(o.id))) {
+                    note(v, 7, "top_level:byname-ref-ignored",
+                         "after `" + op + "` " + (o.kind == 1 ? "cell " : "raw cell ") + hx(o.id) + " is reported top level although cell " +
+                             hx(i) + " references it by name (" + a.rtext[i][j] + ")");
+                    hit = true;
+                    break;
+                }
+            }
+            if (hit) break;
+        }
+    }
+    return v;
+}
+
+static void keep_best(Deviation& best, const std::vector<Deviation>& v) {
+    for (auto& d : v)
+        if (best.rank < 0 || d.rank < best.rank) best = d;
 }
 
 // ---------------------------------------------------------------------------------------------
@@ -961,13 +1117,23 @@ static std::string compress(const Sections& d, const Sections* prev) {
     return sec(d.a, prev->a) + "~" + sec(d.s, prev->s) + "~" + sec(d.wr, prev->wr) + "~" + sec(d.q, prev->q) + "~" + sec(d.tg, prev->tg);
 }
 
+static void emit_P(Out& out, const std::string& id, const std::string& pres, bool legit, const Deviation& dev) {
+    if (!pres.empty())
+        out.P(id, "FAIL " + pres);  // violation inside the contract: always first
+    else if (dev.rank >= 0) {
+        out.P(id, "FAIL " + dev.key + " " + dev.text);
+        out.count("deviation:" + dev.key);
+    } else if (legit)
+        out.P(id, "ok");
+}
+
 static void finish_case(Out& out, const std::string& setup, const std::vector<std::string>& ops, const std::string& result,
-                        const std::string& pres, bool legit) {
+                        const std::string& pres, bool legit, const Deviation& dev) {
     std::string payload = setup + "|";
     for (size_t i = 0; i < ops.size(); i++) payload += (i ? ";" : "") + ops[i];
     std::string id = out.add("hist", payload);
     out.I(id, result);
-    if (legit) out.P(id, pres.empty() ? "ok" : "FAIL " + pres);
+    emit_P(out, id, pres, legit, dev);
 }
 
 // replay of a given payload (corpus / replay file): no generation
@@ -983,15 +1149,20 @@ static void replay_case(Out& out, const std::string& payload) {
         if (!words(s).empty()) exec_op(w, s);
     Sections d = dump(w);
     std::string result = flat(d);
+    Deviation dev = {-1, "", ""};
     for (auto& s : split(rest, ';')) {
         if (words(s).empty()) continue;
+        Snap before = snap(w);
+        bool cyc = store_has_cycle(w);
         exec_op(w, s);
         Sections nd = dump(w);
         result += " | " + compress(nd, &d);
         d = nd;
+        keep_best(dev, deviations(w, before, cyc, s));
     }
     std::string id = out.add("hist", payload);
     out.I(id, result);
+    emit_P(out, id, "", false, dev);
     free_world(w);
 }
 
@@ -1061,14 +1232,15 @@ static void gen_case(Out& out, Rng& g, bool legit) {
     std::string result = compress(d, NULL);
     std::string pres;
     bool oracle_on = legit;
+    Deviation dev = {-1, "", ""};
     int len = (int)g.range(5, 40);
     std::vector<std::string> ops;
     for (int step = 0; step < len; step++) {
         std::string op;
         for (int tries = 0; tries < 20 && op.empty(); tries++) op = gen.draw();
         if (op.empty()) break;
-        Snap before;
-        if (oracle_on) before = snap(w);
+        Snap before = snap(w);
+        bool cyc = store_has_cycle(w);
         exec_op(w, op);
         ops.push_back(op);
         out.count("op:" + words(op)[0]);
@@ -1076,6 +1248,7 @@ static void gen_case(Out& out, Rng& g, bool legit) {
         result += " | " + compress(nd, &d);
         d = nd;
         if (nd.q.find('X') != std::string::npos) out.count("dumps-with-cyclic-crash");
+        keep_best(dev, deviations(w, before, cyc, op));
         if (oracle_on && pres.empty()) {
             std::string f = oracle(w, before, op, nd);
             // finding key = first word of the failure text (stable across seeds)
@@ -1084,7 +1257,7 @@ static void gen_case(Out& out, Rng& g, bool legit) {
     }
     out.count(legit ? "histories:within-preconditions" : "histories:arbitrary");
     out.count("ops", (long)ops.size());
-    finish_case(out, setup_text, ops, result, pres, legit);
+    finish_case(out, setup_text, ops, result, pres, legit, dev);
     free_world(w);
 }
 
